@@ -360,7 +360,7 @@ func keys(m map[string]bool) []string {
 }
 
 // stepBoundAfterStop: B of DESIGN §3 (the code's own figure is 50 instructions).
-const stepBoundAfterStop = 1_000_000
+const stepBoundAfterStop = 200_000
 
 func init() {
 	planners["C17"] = planC17
